@@ -56,22 +56,111 @@ theorem foldl_insert_sorted : ∀ (l acc : List KV), (∀ a ∈ acc, ∀ b ∈ l
         subst this
         exact hs'.1 b hb
 
+theorem ltBytes_trans : ∀ (a b c : List UInt8), ltBytes a b = true → ltBytes b c = true → ltBytes a c = true
+  | [], [], _, h, _ => by simp [ltBytes] at h
+  | [], _ :: _, [], _, h => by simp [ltBytes] at h
+  | [], _ :: _, _ :: _, _, _ => by simp [ltBytes]
+  | _ :: _, [], _, h, _ => by simp [ltBytes] at h
+  | _ :: _, _ :: _, [], _, h => by simp [ltBytes] at h
+  | x :: xs, y :: ys, z :: zs, h1, h2 => by
+    simp only [ltBytes] at h1 h2 ⊢
+    by_cases hxy : x.toNat < y.toNat
+    · by_cases hyz : y.toNat < z.toNat
+      · have : x.toNat < z.toNat := by omega
+        simp [this]
+      · by_cases hzy : z.toNat < y.toNat
+        · simp [hyz, hzy] at h2
+        · have : x.toNat < z.toNat := by omega
+          simp [this]
+    · by_cases hyx : y.toNat < x.toNat
+      · simp [hxy, hyx] at h1
+      · simp only [hxy, hyx, if_false] at h1
+        by_cases hyz : y.toNat < z.toNat
+        · have : x.toNat < z.toNat := by omega
+          simp [this]
+        · by_cases hzy : z.toNat < y.toNat
+          · simp [hyz, hzy] at h2
+          · simp only [hyz, hzy, if_false] at h2
+            have h3 : ¬ x.toNat < z.toNat := by omega
+            have h4 : ¬ z.toNat < x.toNat := by omega
+            simp only [h3, h4, if_false]
+            exact ltBytes_trans xs ys zs h1 h2
+
+/-- the decoder's test of adjacent keys is the test of all pairs -/
+theorem sorted_of_ascB : ∀ (ps : List KV), ascB ps = true → Sorted ps
+  | [], _ => List.Pairwise.nil
+  | [p], _ => by simp [Sorted]
+  | a :: b :: rest, h => by
+    simp only [ascB, Bool.and_eq_true] at h
+    have ih := sorted_of_ascB (b :: rest) h.2
+    unfold Sorted at ih ⊢
+    have ih' := List.pairwise_cons.mp ih
+    refine List.pairwise_cons.mpr ⟨?_, ih⟩
+    intro c hc
+    rcases List.mem_cons.mp hc with hcb | hc'
+    · subst hcb; exact h.1
+    · exact ltBytes_trans _ _ _ h.1 (ih'.1 c hc')
+
+theorem ascB_of_sorted : ∀ (ps : List KV), Sorted ps → ascB ps = true
+  | [], _ => rfl
+  | [_], _ => rfl
+  | a :: b :: rest, h => by
+    unfold Sorted at h
+    have h' := List.pairwise_cons.mp h
+    simp only [ascB, Bool.and_eq_true]
+    exact ⟨h'.1 b (List.mem_cons_self ..), ascB_of_sorted (b :: rest) h'.2⟩
+
 theorem asPairs_map (ps : List KV) : asPairs (ps.map pairItem) = some ps := by
   induction ps with
   | nil => rfl
   | cons p ps ih => simp [asPairs, pairItem, asPair, ih]
 
-/-- a key-sorted profile decodes from its own encoding to itself -/
-theorem decodeProfile_encodeProfile (ps : List KV) (h : Sorted ps) : decodeProfile (encodeProfile ps) = some ps := by
+theorem asPair_inv {x : Item} {p : KV} (h : asPair x = some p) : x = pairItem p := by
+  unfold asPair at h
+  split at h
+  · cases h; rfl
+  · cases h
+
+theorem asPairs_inv : ∀ (xs : List Item) (ps : List KV), asPairs xs = some ps → xs = ps.map pairItem
+  | [], ps, h => by simp [asPairs] at h; subst h; rfl
+  | x :: xs, ps, h => by
+    rw [asPairs] at h
+    split at h
+    · rename_i p ps' h1 h2
+      cases h
+      rw [List.map_cons, ← asPair_inv h1, ← asPairs_inv xs ps' h2]
+    · cases h
+
+/-- a key-sorted profile decodes from its own encoding to itself (the code as it is, and the code before 8a6b205) -/
+theorem decodeProfile_encodeProfile (ps : List KV) (h : Sorted ps) : decodeProfile true (encodeProfile ps) = some ps := by
   unfold decodeProfile encodeProfile
-  cases ps with
-  | nil => rfl
-  | cons p ps =>
-    have : sizeZero (Item.list (List.map pairItem (p :: ps))) = false := rfl
-    rw [this]
-    simp only [Bool.false_eq_true, if_false, asPairs_map, Option.map_some]
-    rw [foldl_insert_sorted (p :: ps) [] (by simp) h]
-    rfl
+  simp only [if_true, asPairs_map, ascB_of_sorted ps h]
+  rw [foldl_insert_sorted ps [] (by simp) h]
+  rfl
+
+/-- **canonicity of the Profile codec**: what `Profile.DecodeRLP` accepts is the encoding of the decoded map -/
+theorem encodeProfile_decodeProfile {it : Item} {ps : List KV} (h : decodeProfile true it = some ps) :
+    encodeProfile ps = it ∧ Sorted ps := by
+  unfold decodeProfile at h
+  simp only [if_true] at h
+  cases it with
+  | bytes b => simp at h
+  | list xs =>
+    simp only at h
+    cases hp : asPairs xs with
+    | none => simp [hp] at h
+    | some qs =>
+      simp only [hp] at h
+      split at h
+      · rename_i ha
+        cases h
+        have hs := sorted_of_ascB qs ha
+        rw [foldl_insert_sorted qs [] (by simp) hs]
+        simp only [List.nil_append]
+        refine ⟨?_, hs⟩
+        unfold encodeProfile
+        rw [← asPairs_inv xs qs hp]
+      · cases h
 
 /-! ### header root positions -/
 
@@ -98,20 +187,79 @@ theorem okAt_mono {P Q : Val → Prop} (hpq : ∀ x, P x → Q x) : ∀ (i : Nat
     simp only [okAt] at h ⊢
     exact ⟨fun hi => hpq x (h.1 hi), okAt_mono hpq (i + 1) xs h.2⟩
 
-/-! ### payload decoders -/
 
-theorem decodeS_ne_nil : ∀ (s : Schema) (it : Item), noOpt s = true → decodeS s it ≠ some .nil := by
-  intro s it hn h
-  cases s <;> cases it <;> simp [decodeS, noOpt] at h hn
-  all_goals (try (split at h <;> simp at h))
+/-- the wire forms of a header root that `decodeRoot` accepts -/
+def wireRootOk (E : List UInt8) : Val → Prop
+  | .bytes b => b = [] ∨ (b.length = 32 ∧ b ≠ E)
+  | _ => True
 
-/-- when a payload value is written by `runEnc` and read back by `runDec` -/
-def RtOk : PDec → CVal → Item → Prop
-  | .nilOr s, .v x, it => noOpt s = true ∧ (x = .nil ∨ sizeZero it = false)
-  | .asset, .asset _ ps, _ => Sorted ps
-  | .candidate, .prof ps, _ => Sorted ps ∧ ps ≠ []
-  | .candidate, .raw it', _ => sizeZero it' = true
-  | _, _, _ => True
+theorem rootOk_iff {E b : List UInt8} (h : rootOk E b = true) : b = [] ∨ (b.length = 32 ∧ b ≠ E) := by
+  unfold rootOk at h
+  split at h
+  · rename_i he
+    left
+    cases b with
+    | nil => rfl
+    | cons a t => simp at he
+  · right; exact of_decide_eq_true h
+
+theorem okAt_of_rootsOk (E : List UInt8) : ∀ (i : Nat) (l : List Val), rootsOk E i l = true → okAt (wireRootOk E) i l
+  | _, [], _ => trivial
+  | i, x :: xs, h => by
+    simp only [rootsOk, Bool.and_eq_true] at h
+    simp only [okAt]
+    refine ⟨?_, okAt_of_rootsOk E (i + 1) xs h.2⟩
+    intro hi
+    have h1 := h.1
+    rw [if_pos hi] at h1
+    cases x with
+    | bytes r => exact rootOk_iff h1
+    | nat _ => trivial
+    | list _ => trivial
+    | nil => trivial
+
+/-! ### payload decoders (the code as it is, `fx = true`) -/
+
+theorem emptyList_iff {it : Item} : emptyList it = true ↔ it = .list [] := by
+  constructor
+  · intro h
+    unfold emptyList at h
+    split at h
+    · rfl
+    · cases h
+  · intro h; subst h; rfl
+
+theorem nilForm_true (it : Item) : nilForm true it = emptyList it := rfl
+
+theorem decodeS_struct_list {fx : Bool} {fs : List Schema} {it : Item} {v : Val}
+    (h : decodeS fx (.struct fs) it = some v) : ∃ xs vs, it = .list xs ∧ v = .list vs := by
+  cases it with
+  | bytes b => simp [decodeS] at h
+  | list xs =>
+    simp only [decodeS, Option.map_eq_some_iff] at h
+    obtain ⟨vs, _, hv⟩ := h
+    exact ⟨xs, vs, rfl, hv.symm⟩
+
+theorem decodeS_listOf_list {fx : Bool} {s : Schema} {it : Item} {v : Val}
+    (h : decodeS fx (.listOf s) it = some v) : ∃ vs, v = .list vs := by
+  cases it with
+  | bytes b => simp [decodeS] at h
+  | list xs =>
+    simp only [decodeS, Option.map_eq_some_iff] at h
+    obtain ⟨vs, _, hv⟩ := h
+    exact ⟨vs, hv.symm⟩
+
+/-- representation invariants of a payload VALUE - not guards on the wire: a Profile is a Go map, kept as a key-sorted
+    association list; a `Signers` payload is a slice (the nil slice is identified with the empty one, both are written
+    0xC0); the raw item of the code before 29ca096 does not occur; a `nilOr` decoder belongs to a struct with at least one
+    field (true of the two that are registered: AssetEquity, ProfileChangeLogExtra). -/
+def Wf : PDec → CVal → Prop
+  | .asset, .asset _ ps => Sorted ps
+  | .candidate, .prof ps => Sorted ps
+  | .candidate, .raw _ => False
+  | .signers, .v x => x ≠ .nil
+  | .nilOr fs, .v x => x = .nil ∨ fs ≠ []
+  | _, _ => True
 
 theorem setBytesN_exact {n : Nat} {b : List UInt8} (h : b.length = n) : setBytesN n b = b := by
   unfold setBytesN; simp [h]
@@ -130,7 +278,7 @@ theorem encodeFields_length : ∀ (fs : List Schema) (vs : List Val) (xs : List 
     · cases h
 
 theorem decodeAsset_encodeAsset (fs : List Val) (ps : List KV) (it : Item) (hs : Sorted ps)
-    (h : encodeAsset (fs, ps) = some it) : decodeAsset it = some (fs, ps) := by
+    (h : encodeAsset (fs, ps) = some it) : decodeAsset true it = some (fs, ps) := by
   unfold encodeAsset at h
   split at h
   · rename_i hb
@@ -140,19 +288,50 @@ theorem decodeAsset_encodeAsset (fs : List Val) (ps : List KV) (it : Item) (hs :
       simp only [he, Option.map_some, Option.some.injEq] at h
       subst h
       have hl := encodeFields_length _ _ _ he
-      have hd := decodeFields_encodeFields fs assetFields xs he
+      have hd := decodeFields_encodeFields true fs assetFields xs he
       match xs, hl with
       | [a, b, c, d, e, f, g], _ =>
         simp only [List.cons_append, List.nil_append, decodeAsset, decodeAssetFields, hd, hb, if_true,
           decodeProfile_encodeProfile ps hs]
   · cases h
 
-theorem runDec_runEnc (p : PDec) (v : CVal) (it : Item) (h : runEnc p v = some it) (hok : RtOk p v it) :
-    runDec p it = some v := by
+/-- **canonicity of the Asset codec** -/
+theorem encodeAsset_decodeAsset {it : Item} {fs : List Val} {ps : List KV} (h : decodeAsset true it = some (fs, ps)) :
+    encodeAsset (fs, ps) = some it ∧ Sorted ps := by
+  unfold decodeAsset at h
+  split at h
+  · simp at h
+  · rename_i a b c d e f g p
+    cases hf : decodeAssetFields true [a, b, c, d, e, f, g] with
+    | none => simp [hf] at h
+    | some fs' =>
+      cases hp : decodeProfile true p with
+      | none => simp [hf, hp] at h
+      | some ps' =>
+        simp only [hf, hp, Option.some.injEq, Prod.mk.injEq] at h
+        obtain ⟨h1, h2⟩ := h
+        subst h1 h2
+        have hq := encodeProfile_decodeProfile hp
+        unfold decodeAssetFields at hf
+        split at hf
+        · rename_i fs'' hd
+          split at hf
+          · rename_i hb
+            cases hf
+            have he := encodeFields_decodeFields [a, b, c, d, e, f, g] assetFields fs' hd
+            refine ⟨?_, hq.2⟩
+            simp [encodeAsset, hb, he, hq.1]
+          · cases hf
+        · cases hf
+  · cases h
+
+/-- **payload round trip**: every well-formed payload value written by the encoder is read back by the registered decoder -/
+theorem runDec_runEnc (p : PDec) (v : CVal) (it : Item) (h : runEnc p v = some it) (hok : Wf p v) :
+    runDec true p it = some v := by
   cases p with
   | strict s =>
     cases v with
-    | v x => simp only [runEnc] at h; simp [runDec, decodeS_encodeS x s it h]
+    | v x => simp only [runEnc] at h; simp [runDec, decodeS_encodeS true x s it h]
     | prof _ => simp [runEnc] at h
     | asset _ _ => simp [runEnc] at h
     | raw _ => simp [runEnc] at h
@@ -164,31 +343,57 @@ theorem runDec_runEnc (p : PDec) (v : CVal) (it : Item) (h : runEnc p v = some i
     | prof _ => simp [runEnc] at h
     | asset _ _ => simp [runEnc] at h
     | raw _ => simp [runEnc] at h
-  | loose n =>
+  | fixedN n =>
     cases v with
     | v x =>
       cases x <;> simp [runEnc] at h
       obtain ⟨h1, h2⟩ := h
       subst h2
-      simp [runDec, setBytesN_exact h1]
+      simp [runDec, h1]
     | prof _ => simp [runEnc] at h
     | asset _ _ => simp [runEnc] at h
     | raw _ => simp [runEnc] at h
-  | nilOr s =>
+  | nilOr fs =>
     cases v with
     | v x =>
-      simp only [RtOk] at hok
+      simp only [Wf] at hok
       by_cases hx : x = .nil
       · subst hx
         simp only [runEnc, Option.some.injEq] at h
         subst h; rfl
-      · have hz : sizeZero it = false := by
-          cases hok.2 with
+      · have hfs : fs ≠ [] := by
+          cases hok with
           | inl h1 => exact absurd h1 hx
           | inr h2 => exact h2
-        have he : encodeS s x = some it := by
+        have he : encodeS (.struct fs) x = some it := by
           cases x <;> simp_all [runEnc]
-        simp [runDec, hz, decodeS_encodeS x s it he]
+        have hd := decodeS_encodeS true x (.struct fs) it he
+        obtain ⟨xs, vs, hit, hv⟩ := decodeS_struct_list hd
+        subst hit hv
+        have hne : xs ≠ [] := by
+          simp only [encodeS, Option.map_eq_some_iff] at he
+          obtain ⟨ys, hy, hyx⟩ := he
+          cases hyx
+          have hl := encodeFields_length _ _ _ hy
+          intro hxs; subst hxs
+          cases fs with
+          | nil => exact hfs rfl
+          | cons f fs' => simp at hl
+        have hz : nilForm true (Item.list xs) = false := by
+          cases xs with
+          | nil => exact absurd rfl hne
+          | cons a t => rfl
+        simp [runDec, hz, hd]
+    | prof _ => simp [runEnc] at h
+    | asset _ _ => simp [runEnc] at h
+    | raw _ => simp [runEnc] at h
+  | signers =>
+    cases v with
+    | v x =>
+      simp only [Wf] at hok
+      have he : encodeS signersSchema x = some it := by
+        cases x <;> simp_all [runEnc]
+      simp [runDec, decodeS_encodeS true x signersSchema it he]
     | prof _ => simp [runEnc] at h
     | asset _ _ => simp [runEnc] at h
     | raw _ => simp [runEnc] at h
@@ -198,10 +403,10 @@ theorem runDec_runEnc (p : PDec) (v : CVal) (it : Item) (h : runEnc p v = some i
       cases x <;> simp [runEnc] at h
       subst h; rfl
     | asset fs ps =>
-      simp only [RtOk] at hok
+      simp only [Wf] at hok
       simp only [runEnc] at h
       have hd := decodeAsset_encodeAsset fs ps it hok h
-      have hz : sizeZero it = false := by
+      have hz : nilForm true it = false := by
         unfold decodeAsset at hd
         split at hd <;> first | rfl | (cases hd)
       simp [runDec, hz, hd]
@@ -209,112 +414,130 @@ theorem runDec_runEnc (p : PDec) (v : CVal) (it : Item) (h : runEnc p v = some i
     | raw _ => simp [runEnc] at h
   | candidate =>
     cases v with
-    | raw it' =>
-      simp only [RtOk] at hok
-      simp only [runEnc, Option.some.injEq] at h
-      subst h
-      simp [runDec, hok]
+    | raw it' => exact absurd hok (by simp [Wf])
     | prof ps =>
-      simp only [RtOk] at hok
+      simp only [Wf] at hok
       simp only [runEnc, Option.some.injEq] at h
       subst h
-      have hz : sizeZero (encodeProfile ps) = false := by
-        cases ps with
-        | nil => exact absurd rfl hok.2
-        | cons q qs => rfl
-      simp [runDec, hz, decodeProfile_encodeProfile ps hok.1]
+      simp [runDec, decodeProfile_encodeProfile ps hok]
     | v _ => simp [runEnc] at h
     | asset _ _ => simp [runEnc] at h
 
-/-- the wire forms of a payload on which its decoder is injective (everything else is the laxness refuted in C14.lean) -/
-def Strict : PDec → Item → Prop
-  | .strict s, _ => noOpt s = true
-  | .emptyIface, it => it = .list []
-  | .loose n, it => ∃ b, it = .bytes b ∧ b.length = n
-  | .nilOr s, it => noOpt s = true ∧ (it = .list [] ∨ sizeZero it = false)
-  | .asset, it => it = .list [] ∨ ∃ a b c d e f g qs, it = .list [a, b, c, d, e, f, g, encodeProfile qs] ∧ Sorted qs
-  | .candidate, it => sizeZero it = true ∨ ∃ qs, Sorted qs ∧ it = encodeProfile qs
-
-theorem runEnc_runDec (p : PDec) (v : CVal) (it : Item) (h : runDec p it = some v) (hs : Strict p it) :
+/-- **payload canonicity**: whatever a registered payload decoder accepts is the encoding of the decoded value -
+    for every decoder and every item, no guard -/
+theorem runEnc_runDec (p : PDec) (v : CVal) (it : Item) (h : runDec true p it = some v) :
     runEnc p v = some it := by
   cases p with
   | strict s =>
-    simp only [Strict] at hs
     simp only [runDec, Option.map_eq_some_iff] at h
     obtain ⟨x, hx, hv⟩ := h
     subst hv
-    exact encodeS_decodeS it s x hs hx
+    exact encodeS_decodeS it s x hx
   | emptyIface =>
-    simp only [Strict] at hs
-    subst hs
-    simp [runDec, sizeZero] at h
-    subst h; rfl
-  | loose n =>
-    simp only [Strict] at hs
-    obtain ⟨b, hb, hl⟩ := hs
-    subst hb
-    simp only [runDec, Option.some.injEq] at h
-    subst h
-    simp [runEnc, setBytesN_exact hl, hl]
-  | nilOr s =>
-    simp only [Strict] at hs
-    cases hs.2 with
-    | inl h1 =>
-      subst h1
-      simp [runDec, sizeZero] at h
-      subst h; rfl
-    | inr h2 =>
-      simp only [runDec, h2, Bool.false_eq_true, if_false, Option.map_eq_some_iff] at h
+    simp only [runDec] at h
+    by_cases hz : nilForm true it = true
+    · rw [if_pos hz] at h
+      cases h
+      have hz' : emptyList it = true := hz
+      rw [emptyList_iff.mp hz']; rfl
+    · rw [if_neg hz] at h
+      cases h
+  | fixedN n =>
+    cases it with
+    | bytes b =>
+      simp only [runDec, if_true] at h
+      split at h
+      · rename_i hl
+        cases h
+        simp [runEnc, hl]
+      · cases h
+    | list xs => simp [runDec] at h
+  | nilOr fs =>
+    simp only [runDec] at h
+    by_cases hz : nilForm true it = true
+    · rw [if_pos hz] at h
+      cases h
+      have hz' : emptyList it = true := hz
+      rw [emptyList_iff.mp hz']; rfl
+    · rw [if_neg hz] at h
+      simp only [Option.map_eq_some_iff] at h
       obtain ⟨x, hx, hv⟩ := h
       subst hv
-      have hne := decodeS_ne_nil s it hs.1
-      have he := encodeS_decodeS it s x hs.1 hx
-      cases x with
-      | nil => exact absurd hx hne
-      | bytes _ => exact he
-      | nat _ => exact he
-      | list _ => exact he
+      obtain ⟨xs, vs, hit, hxv⟩ := decodeS_struct_list hx
+      subst hxv
+      exact encodeS_decodeS it (.struct fs) _ hx
+  | signers =>
+    simp only [runDec, if_true, Option.map_eq_some_iff] at h
+    obtain ⟨x, hx, hv⟩ := h
+    subst hv
+    obtain ⟨vs, hxv⟩ := decodeS_listOf_list (s := .struct [.fixed 20, .uint 8]) hx
+    subst hxv
+    exact encodeS_decodeS it signersSchema _ hx
   | asset =>
-    simp only [Strict] at hs
-    cases hs with
-    | inl h1 =>
-      subst h1
-      simp [runDec, sizeZero] at h
-      subst h; rfl
-    | inr h2 =>
-      obtain ⟨a, b, c, d, e, f, g, qs, hit, hq⟩ := h2
-      subst hit
-      have hz : sizeZero (Item.list [a, b, c, d, e, f, g, encodeProfile qs]) = false := rfl
-      simp only [runDec, hz, Bool.false_eq_true, if_false, decodeAsset, decodeProfile_encodeProfile qs hq] at h
-      cases hf : decodeAssetFields [a, b, c, d, e, f, g] with
-      | none => simp [hf] at h
-      | some fs =>
-        simp only [hf, Option.map_some, Option.some.injEq] at h
-        subst h
-        unfold decodeAssetFields at hf
-        split at hf
-        · rename_i fs' hd
-          split at hf
-          · rename_i hb
-            cases hf
-            have he := encodeFields_decodeFields [a, b, c, d, e, f, g] assetFields fs (by decide) hd
-            simp [runEnc, encodeAsset, hb, he]
-          · cases hf
-        · cases hf
+    simp only [runDec] at h
+    by_cases hz : nilForm true it = true
+    · rw [if_pos hz] at h
+      cases h
+      have hz' : emptyList it = true := hz
+      rw [emptyList_iff.mp hz']; rfl
+    · rw [if_neg hz] at h
+      simp only [Option.map_eq_some_iff] at h
+      obtain ⟨a, ha, hv⟩ := h
+      subst hv
+      obtain ⟨fs, ps⟩ := a
+      exact (encodeAsset_decodeAsset ha).1
   | candidate =>
-    simp only [Strict] at hs
-    cases hs with
-    | inl h1 =>
-      simp only [runDec, h1, if_true, Option.some.injEq] at h
-      subst h; rfl
-    | inr h2 =>
-      obtain ⟨qs, hq, hit⟩ := h2
-      subst hit
-      by_cases hz : sizeZero (encodeProfile qs) = true
-      · simp only [runDec, hz, if_true, Option.some.injEq] at h
-        subst h; rfl
-      · simp only [runDec, hz, Bool.false_eq_true, if_false, decodeProfile_encodeProfile qs hq,
-          Option.map_some, Option.some.injEq] at h
-        subst h; rfl
+    simp only [runDec, if_true, Option.map_eq_some_iff] at h
+    obtain ⟨ps, hp, hv⟩ := h
+    subst hv
+    simp [runEnc, (encodeProfile_decodeProfile hp).1]
+
+/-- a decoded payload value satisfies the representation invariants (so it round-trips again) -/
+theorem runDec_wf (p : PDec) (v : CVal) (it : Item) (h : runDec true p it = some v) (hp : ∀ fs, p = .nilOr fs → fs ≠ []) :
+    Wf p v := by
+  cases p with
+  | strict s => simp only [runDec, Option.map_eq_some_iff] at h; obtain ⟨x, _, hv⟩ := h; subst hv; trivial
+  | emptyIface =>
+    simp only [runDec] at h
+    split at h
+    · cases h; trivial
+    · cases h
+  | fixedN n =>
+    cases it with
+    | bytes b =>
+      simp only [runDec, if_true] at h
+      split at h
+      · cases h; trivial
+      · cases h
+    | list xs => simp [runDec] at h
+  | nilOr fs =>
+    simp only [runDec] at h
+    split at h
+    · cases h; exact Or.inl rfl
+    · simp only [Option.map_eq_some_iff] at h
+      obtain ⟨x, _, hv⟩ := h
+      subst hv
+      exact Or.inr (hp fs rfl)
+  | signers =>
+    simp only [runDec, if_true, Option.map_eq_some_iff] at h
+    obtain ⟨x, hx, hv⟩ := h
+    subst hv
+    obtain ⟨vs, hxv⟩ := decodeS_listOf_list (s := .struct [.fixed 20, .uint 8]) hx
+    subst hxv
+    simp [Wf]
+  | asset =>
+    simp only [runDec] at h
+    split at h
+    · cases h; trivial
+    · simp only [Option.map_eq_some_iff] at h
+      obtain ⟨a, ha, hv⟩ := h
+      subst hv
+      obtain ⟨fs, ps⟩ := a
+      exact (encodeAsset_decodeAsset ha).2
+  | candidate =>
+    simp only [runDec, if_true, Option.map_eq_some_iff] at h
+    obtain ⟨ps, hp', hv⟩ := h
+    subst hv
+    exact (encodeProfile_decodeProfile hp').2
 
 end LemoProofs.RlpCustomLemmas
